@@ -162,14 +162,28 @@ def _cmp_ud(cmp, a, b):
     cmp.check("user_defined", a._data.get("ccsds_user_defined", {}) == b._data.get("ccsds_user_defined", {}), f"{b._data.get('ccsds_user_defined')}")
 
 
-def _round_trip(c, label, obj, compare, **kw):
-    """dumps -> loads -> compare, in both encodings; the two decoded objects compared with each other; what was read is written again"""
+def _round_trip(c, label, obj, compare, by_config=False, **kw):
+    """dumps -> loads -> compare, in both encodings (chosen by argument, or by the configured default); the two decoded objects compared with each other; what was read
+    is written again"""
     from beyond.io import ccsds
+    from beyond.config import config
     back = {}
     for fmt in ("kvn", "xml"):
         cmp = _Cmp()
         try:
-            text = ccsds.dumps(obj, fmt=fmt, **kw)
+            if by_config:
+                saved = dict.get(config, "io")
+                config["io"] = {"ccsds_default_format": fmt}
+                try:
+                    text = ccsds.dumps(obj, **kw)
+                finally:
+                    if saved is None:
+                        del config["io"]
+                    else:
+                        config["io"] = saved
+                c.ensure(f"{label}.{fmt}.configured_default_format_used", text.lstrip().startswith("CCSDS_" if fmt == "kvn" else "<?xml"))
+            else:
+                text = ccsds.dumps(obj, fmt=fmt, **kw)
         except Exception as e:
             c.ensure(f"{label}.{fmt}.dumps_raises:{type(e).__name__}", False)
             continue
@@ -258,7 +272,7 @@ def _(c):
         _cmp_state(cmp, a, b, name=kw.get("name") if a is sv else None, cospar=kw.get("cospar_id") if a is sv else None)
         _cmp_mans(cmp, a, b)
         _cmp_ud(cmp, a, b)
-    _round_trip(c, "opm", sv, compare, **kw)
+    _round_trip(c, "opm", sv, compare, by_config=c.integer("k") % 3 == 2, **kw)
 
 
 # ---------------------------------------------------------------------------------------------------------------------
